@@ -600,6 +600,16 @@ def _fuzzfrozen(g, scale, opts=None):
         g.emit("toarr %s" % y)
         g.emit("has %s 65535" % y)
         g.emit("max %s" % y)
+    # table-only streams whose announced payload totals reach 2^32 bytes (or 2^31 values): the size arithmetic must not wrap
+    for typ, n, cnt, last in [(3, 16385, 65535, None), (3, 16384, 65535, None), (2, 32768, 65535, None), (2, 32769, 65535, 0),
+                              (3, 16385, 65532, 65535), (1, 65535, 4999, None)]:
+        counts = [cnt] * n
+        if last is not None:
+            counts[-1] = last
+        tbl = struct.pack("<%dH" % n, *range(n)) + struct.pack("<%dH" % n, *counts) + bytes([typ]) * n + \
+            struct.pack("<I", 13766 | (n << 15))
+        g.emit(("fdec %s %s %s" % (g.fresh("x"), tbl.hex(), opt())).strip())
+        g.count("fzmut:hugetotals")
     # a bitmap container holding exactly 4096 values (the array/bitmap threshold), and its neighbours
     for m in (4095, 4097):
         s = Stream()
